@@ -213,6 +213,7 @@ enum Target {
     GlobalXrd,
     TestEnvObj,
     VaultXrd,
+    GlobalRes2,
 }
 const TARGETS: &[Target] = &[
     Target::BucketXrd,
@@ -226,6 +227,7 @@ const TARGETS: &[Target] = &[
     Target::GlobalXrd,
     Target::TestEnvObj,
     Target::VaultXrd,
+    Target::GlobalRes2,
 ];
 
 /// creates the node in the environment's own frame; returns (node, must be moved?, extra owned nodes to move along)
@@ -279,6 +281,7 @@ fn make_target(w: &mut World, t: Target) -> Result<(NodeId, bool, Vec<NodeId>), 
         }
         Target::GlobalFaucet => (*FAUCET.as_node_id(), false, vec![]),
         Target::GlobalXrd => (*XRD.as_node_id(), false, vec![]),
+        Target::GlobalRes2 => (*w.res2.as_node_id(), false, vec![]),
     })
 }
 
@@ -315,6 +318,7 @@ fn blueprints_pool(w: &World) -> Vec<BlueprintId> {
 enum Op {
     Drop,
     Globalize { reserve_for: Option<BlueprintId>, modules: bool }, // None = a non-reservation node is passed
+    GlobalizeSel { sel: u8, modules: bool },                        // reservation chosen relative to the target's blueprint
     New(String),
     State(u32),
     KvOpen,
@@ -329,7 +333,7 @@ struct CaseOut {
     tag: String,
 }
 
-fn run_case(w: &mut World, reg: &mut Registry, rng: &mut Rng) -> Result<CaseOut, String> {
+fn choose(w: &mut World, rng: &mut Rng) -> (Target, Op, ActorKind) {
     let pool = blueprints_pool(w);
     // ---- choose
     let target_kind = *rng.pick(TARGETS);
@@ -413,9 +417,27 @@ fn run_case(w: &mut World, reg: &mut Registry, rng: &mut Rng) -> Result<CaseOut,
     } else {
         (target_kind, op, actor_kind)
     };
+    (target_kind, op, actor_kind)
+}
 
+fn run_plan(w: &mut World, reg: &mut Registry, target_kind: Target, op: Op, actor_kind: ActorKind) -> Result<CaseOut, String> {
+    let pool = blueprints_pool(w);
     // ---- create nodes in the environment frame
     let (target, target_owned, _) = make_target(w, target_kind).map_err(|e| format!("make target: {:?}", e))?;
+    // a reservation selector is resolved against the target's blueprint
+    let op = match op {
+        Op::GlobalizeSel { sel, modules } => {
+            let tbp = object_info(&mut w.env, &target).map(|i| i.blueprint_info.blueprint_id).unwrap_or(w.env_bp.clone());
+            let reserve_for = match sel {
+                0 => Some(tbp.clone()),                                                       // the object's own blueprint
+                1 => Some(BlueprintId::new(&tbp.package_address, format!("{}X", tbp.blueprint_name))), // same package, other name
+                2 => Some(BlueprintId::new(if tbp.package_address == FAUCET_PACKAGE { &ACCOUNT_PACKAGE } else { &FAUCET_PACKAGE }, tbp.blueprint_name.clone())), // other package, same name
+                _ => None,                                                                    // not a reservation
+            };
+            Op::Globalize { reserve_for, modules }
+        }
+        o => o,
+    };
     let mut move_nodes: Vec<NodeId> = Vec::new();
     let mut globals: Vec<NodeId> = vec![*XRD.as_node_id(), *FAUCET.as_node_id(), *w.res2.as_node_id()];
     if target_owned {
@@ -570,6 +592,7 @@ fn run_case(w: &mut World, reg: &mut Registry, rng: &mut Rng) -> Result<CaseOut,
             }
             obs
         }
+        Op::GlobalizeSel { .. } => unreachable!("resolved above"),
         Op::Globalize { reserve_for, modules: has_modules } => {
             // the reservation is allocated by the same actor, inside the frame
             let (reservation, reserved_bp) = match reserve_for {
@@ -730,7 +753,7 @@ fn run_case(w: &mut World, reg: &mut Registry, rng: &mut Rng) -> Result<CaseOut,
         "{}|{}|{}",
         match &op {
             Op::Drop => "drop",
-            Op::Globalize { .. } => "globalize",
+            Op::Globalize { .. } | Op::GlobalizeSel { .. } => "globalize",
             Op::New(_) => "new",
             Op::State(_) => "state",
             Op::KvOpen => "kvopen",
@@ -750,6 +773,134 @@ fn run_case(w: &mut World, reg: &mut Registry, rng: &mut Rng) -> Result<CaseOut,
     Ok(CaseOut { heap, actor: actor_coq(reg, &actor), op: op_coq, obs, oracle, tag })
 }
 
+/// The deterministic boundary family (identical for every seed): every kind of actor against every
+/// kind of node for drop and for globalize with each kind of reservation (the object's own blueprint,
+/// same package / other blueprint, other package / same name, not a reservation; with and without the
+/// required modules), new_object of outer / inner / unknown blueprints from every kind of actor, every
+/// state handle value from every kind of actor, key_value_store_open_entry on every kind of node.
+fn family(w: &World) -> Vec<(Target, Op, ActorKind)> {
+    let env = w.env_bp.clone();
+    let rp = |n: &str| BlueprintId::new(&RESOURCE_PACKAGE, n);
+    let actors: Vec<ActorKind> = vec![
+        ActorKind::Root,
+        ActorKind::Function(env.clone()),
+        ActorKind::Function(BlueprintId::new(&env.package_address, "Sibling")),
+        ActorKind::Function(rp(FUNGIBLE_BUCKET_BLUEPRINT)),
+        ActorKind::Function(rp(FUNGIBLE_VAULT_BLUEPRINT)),
+        ActorKind::Function(rp(FUNGIBLE_PROOF_BLUEPRINT)),
+        ActorKind::Function(rp(NON_FUNGIBLE_PROOF_BLUEPRINT)),
+        ActorKind::Function(rp(FUNGIBLE_RESOURCE_MANAGER_BLUEPRINT)),
+        ActorKind::Function(BlueprintId::new(&METADATA_MODULE_PACKAGE, METADATA_BLUEPRINT)),
+        ActorKind::Function(BlueprintId::new(&METADATA_MODULE_PACKAGE, "Sibling")),
+        ActorKind::Function(BlueprintId::new(&ROLE_ASSIGNMENT_MODULE_PACKAGE, ROLE_ASSIGNMENT_BLUEPRINT)),
+        ActorKind::Function(BlueprintId::new(&FAUCET_PACKAGE, "Faucet")),
+        ActorKind::Hook(rp(FUNGIBLE_BUCKET_BLUEPRINT), false),
+        ActorKind::MethodOn(Target::BucketXrd, 0),
+        ActorKind::MethodOn(Target::BucketRes2, 0),
+        ActorKind::MethodOn(Target::VaultXrd, 0),
+        ActorKind::MethodOn(Target::ProofXrd, 0),
+        ActorKind::MethodOn(Target::GlobalXrd, 0),
+        ActorKind::MethodOn(Target::GlobalRes2, 0),
+        ActorKind::MethodOn(Target::GlobalFaucet, 0),
+        ActorKind::MethodOn(Target::GlobalFaucet, 2),
+        ActorKind::MethodOn(Target::GlobalXrd, 3),
+        ActorKind::MethodOn(Target::MetadataObj, 0),
+        ActorKind::MethodOn(Target::TestEnvObj, 0),
+        ActorKind::MethodOnTarget(0),
+    ];
+    let mut v = Vec::new();
+    for t in TARGETS {
+        for a in &actors {
+            v.push((*t, Op::Drop, a.clone()));
+        }
+    }
+    // globalize: the actors that matter for the package / blueprint comparisons
+    let gactors: Vec<ActorKind> = actors.iter().filter(|a| !matches!(a, ActorKind::MethodOn(_, 2) | ActorKind::MethodOn(_, 3) | ActorKind::Hook(..))).cloned().collect();
+    for t in TARGETS {
+        for a in &gactors {
+            for sel in 0..4u8 {
+                v.push((*t, Op::GlobalizeSel { sel, modules: true }, a.clone()));
+            }
+            v.push((*t, Op::GlobalizeSel { sel: 0, modules: false }, a.clone()));
+        }
+    }
+    for a in &actors {
+        for ident in [FUNGIBLE_BUCKET_BLUEPRINT, NON_FUNGIBLE_BUCKET_BLUEPRINT, FUNGIBLE_VAULT_BLUEPRINT, FUNGIBLE_RESOURCE_MANAGER_BLUEPRINT, "TestEnvironment", "Nope"] {
+            v.push((Target::BucketXrd, Op::New(ident.to_string()), a.clone()));
+        }
+        for h in [0u32, 1, 2, u32::MAX] {
+            v.push((Target::BucketXrd, Op::State(h), a.clone()));
+        }
+    }
+    for t in TARGETS {
+        for a in [ActorKind::Root, ActorKind::Function(env.clone()), ActorKind::MethodOn(Target::GlobalFaucet, 0)] {
+            v.push((*t, Op::KvOpen, a));
+        }
+    }
+    v
+}
+
+// counts of the deterministic family on the unmodified code (a class that stops being generated, or
+// whose outcome moves, fails the run)
+const FAMILY_FLOORS: &[(&str, u64)] = &[
+    ("fam|drop|function|EInvalidDropAccess", 77),
+    ("fam|drop|function|ENotAnObject", 18),
+    ("fam|drop|function|ok", 3),
+    ("fam|drop|function|other", 2),
+    ("fam|drop|hook|EInvalidDropAccess", 7),
+    ("fam|drop|hook|ENotAnObject", 1),
+    ("fam|drop|method|EInvalidDropAccess", 67),
+    ("fam|drop|method|ENotAnObject", 16),
+    ("fam|drop|method|ok", 11),
+    ("fam|drop|method|other", 11),
+    ("fam|drop|root|EInvalidDropAccess", 7),
+    ("fam|drop|root|ENotAnObject", 1),
+    ("fam|globalize|function|ECannotGlobalizeAlreadyGlobalized", 18),
+    ("fam|globalize|function|ECannotGlobalizeInvalidBlueprintId", 24),
+    ("fam|globalize|function|EInvalidGlobalAddressReservation", 100),
+    ("fam|globalize|function|EInvalidGlobalizeAccess", 299),
+    ("fam|globalize|function|EMissingModule", 31),
+    ("fam|globalize|function|ENotAnObject", 10),
+    ("fam|globalize|function|ok", 5),
+    ("fam|globalize|function|other", 13),
+    ("fam|globalize|method|ECannotGlobalizeAlreadyGlobalized", 25),
+    ("fam|globalize|method|ECannotGlobalizeInvalidBlueprintId", 30),
+    ("fam|globalize|method|EInvalidGlobalAddressReservation", 88),
+    ("fam|globalize|method|EInvalidGlobalizeAccess", 231),
+    ("fam|globalize|method|EMissingModule", 38),
+    ("fam|globalize|method|ENotAnObject", 4),
+    ("fam|globalize|method|ok", 5),
+    ("fam|globalize|method|other", 19),
+    ("fam|globalize|root|EInvalidGlobalAddressReservation", 9),
+    ("fam|globalize|root|EInvalidGlobalizeAccess", 36),
+    ("fam|kvopen|function|ENotAKeyValueStore", 8),
+    ("fam|kvopen|function|ok", 1),
+    ("fam|kvopen|method|ENotAKeyValueStore", 8),
+    ("fam|kvopen|method|ok", 1),
+    ("fam|kvopen|root|ENotAKeyValueStore", 8),
+    ("fam|kvopen|root|ok", 1),
+    ("fam|new|function|EBlueprintDoesNotExist", 33),
+    ("fam|new|function|EInvalidChildObjectCreation", 11),
+    ("fam|new|function|other", 5),
+    ("fam|new|hook|EBlueprintDoesNotExist", 1),
+    ("fam|new|hook|EInvalidChildObjectCreation", 2),
+    ("fam|new|hook|other", 1),
+    ("fam|new|method|EBlueprintDoesNotExist", 32),
+    ("fam|new|method|EInvalidChildObjectCreation", 5),
+    ("fam|new|method|other", 16),
+    ("fam|new|root|ENoPackageAddress", 4),
+    ("fam|state|function|EInvalidActorStateHandle", 16),
+    ("fam|state|function|ENotAnObject", 16),
+    ("fam|state|hook|EInvalidActorStateHandle", 1),
+    ("fam|state|hook|ENotAnObject", 1),
+    ("fam|state|method|EInvalidActorStateHandle", 18),
+    ("fam|state|method|EOuterObjectDoesNotExist", 5),
+    ("fam|state|method|ok", 11),
+    ("fam|state|method|other", 1),
+    ("fam|state|root|EInvalidActorStateHandle", 1),
+    ("fam|state|root|ENotAnObject", 1),
+];
+
 fn main() {
     let args = Args::parse();
     let mut report = Report::new(
@@ -768,10 +919,19 @@ fn main() {
     let mut reg = Registry::new();
     let mut made = 0usize;
     let mut attempt = 0u64;
-    while made < args.cases && attempt < (args.cases as u64) * 3 + 20 {
+    let fam = family(&world);
+    let n_fam = fam.len();
+    let total = n_fam + args.cases;
+    while made < total && attempt < (total as u64) * 3 + 20 {
         let mut rng = root.fork(attempt);
+        let idx = attempt as usize;
         attempt += 1;
-        let r = catch(std::panic::AssertUnwindSafe(|| run_case(&mut world, &mut reg, &mut rng)));
+        let in_family = idx < n_fam;
+        let plan = if in_family { fam[idx].clone() } else { choose(&mut world, &mut rng) };
+        let r = catch(std::panic::AssertUnwindSafe(|| run_plan(&mut world, &mut reg, plan.0, plan.1.clone(), plan.2.clone())));
+        if in_family {
+            report.count("family_plans");
+        }
         match r {
             Err(msg) => {
                 // a panic inside the engine: the environment may be inconsistent — rebuild it
@@ -782,6 +942,10 @@ fn main() {
             }
             Ok(Err(setup)) => {
                 report.count("setup_failed");
+                if in_family {
+                    report.count("fam|setup_failed");
+                    made += 1; // a family plan is not retried
+                }
                 if std::env::var("C50_DEBUG").is_ok() {
                     eprintln!("SETUP {}", setup.chars().take(160).collect::<String>());
                 }
@@ -800,6 +964,9 @@ fn main() {
                 let term = format!("(mkCase {} {} {} {})", heap, c.actor, c.op, obs);
                 report.case(&term, !matches!(c.obs, Obs::Other(_)));
                 report.count(&c.tag);
+                if in_family {
+                    report.count(&format!("fam|{}", c.tag));
+                }
                 if let Obs::Other(s) = &c.obs {
                     if std::env::var("C50_DEBUG").is_ok() {
                         eprintln!("{} -> {}", c.tag, s);
@@ -833,6 +1000,9 @@ fn main() {
     report.floor("globalize|function|ok", n / 200);
     report.floor("known_drop_by_sibling_inner_object", 1);
     report.floor("kvopen|function|ok", 1);
+    for (k, m) in FAMILY_FLOORS {
+        report.floor(k, *m);
+    }
     cw.write(&args.out, args.shards).unwrap();
     report.write(&args.out).unwrap();
 }
